@@ -71,6 +71,7 @@ FS_NOTE = ("Trusted: the simulated file system's persistence model (simos): writ
            "local.go and durable/path.go are compiled unchanged except for the import path of package os. Process crash without power loss is not modelled.")
 PROPS["C13"] = {
     "engine": "fs", "quick_budget": 45, "thorough_budget": 600, "level_note": FS_NOTE,
+    "also_build": ["seq"], "post_thorough": ["tools/strace_fidelity.py"],
     "level_text": "The real LocalBackend.Upload/Fetch/Discard and internal/durable run over an in-memory file system in which every system call is a scheduling and fault point (EIO, ENOSPC, short write, failing fsync/close) and 1-3 concurrent callers are interleaved call by call; after every call (sweep profiles) power-loss images are taken -- every subset of the un-synced directory changes when there are <= 6, seeded subsets beyond, three data variants (lost, complete, torn) -- mounted and read back. Oracle: acknowledged objects complete in every image, never a partial object under a final name, readers see old or new, immutable re-upload rules, keys confined, and an operation budget turns endless loops into failures.",
     "expect_probes": ["crash.images", "concurrent.parked", "fault.EIO.fsync", "fault.short.write"],
     "real": ["internal/ctlog/local.go (LocalBackend.Upload/Fetch/Discard, compareFile) and internal/durable/path.go (WriteFile, MkdirAll, Mkdir), compiled against the simulated os package", "path/filepath (Localize, Join, Clean)"],
